@@ -589,7 +589,6 @@ func (g *Gen) Case(id int) *Case {
 	return c
 }
 
-
 // exported generator pieces (builder stream)
 func (g *Gen) PrimTests(pk string) []TestSpec { return g.primTests(pk) }
 func (g *Gen) Topts() TOpts                   { return g.topts() }
